@@ -17,6 +17,9 @@ pub enum EOp {
     Admin,
     /// graceful restart into encryption mode 0 (off), 1 (key 1), 2 (key 2)
     R(u8),
+    /// one bit of the stored (encrypted) payload of the newest message on disk is flipped: the record
+    /// can no longer be authenticated under any key
+    Damage,
 }
 
 impl EOp {
@@ -24,6 +27,7 @@ impl EOp {
         match self {
             EOp::Send => "send".into(),
             EOp::Flush => "flush".into(),
+            EOp::Damage => "damage-last-stored-payload".into(),
             EOp::Admin => "mkStream".into(),
             EOp::R(k) => format!("restart(enc={k})"),
         }
@@ -44,7 +48,7 @@ pub struct EncJob {
 }
 
 fn alphabet() -> Vec<EOp> {
-    vec![EOp::Send, EOp::Flush, EOp::Admin, EOp::R(1), EOp::R(2), EOp::R(0)]
+    vec![EOp::Send, EOp::Flush, EOp::Admin, EOp::R(1), EOp::R(2), EOp::R(0), EOp::Damage]
 }
 
 /// payload lengths x fills; marker payloads are searchable in files
@@ -77,6 +81,9 @@ pub fn plan(tier: &str) -> (PropMeta, Vec<Job>) {
     let mut jobs = Vec::new();
     for init_enc in [1u8, 0] {
         for cache in [false, true] {
+            if init_enc == 0 && cache && quick {
+                continue; // the control run (encryption off) needs one cache setting only
+            }
             for threshold in if quick { vec![1000u32] } else { vec![1, 1000] } {
                 for first in 0..alphabet().len() {
                     let j = EncJob { init_enc, cache, threshold, depth, first };
@@ -89,7 +96,7 @@ pub fn plan(tier: &str) -> (PropMeta, Vec<Job>) {
         id: "C19",
         level: "model_checking",
         rule: format!(
-            "every history of exactly {depth} operations over {:?}, starting with encryption on (key 1) and, as control, off; each send is one batch of 21 payloads (lengths 1,11,15,16,17,255,1000 x fills 0x00, 0xFF, ASCII marker); after every step all messages are read back, every file under the data directory is searched for every marker written under encryption (payloads and journalled stream names), and restarts into key 1 / key 2 / encryption off are classified by what the files were written under",
+            "every history of exactly {depth} operations over {:?}, starting with encryption on (key 1) and, as control, off; each send is one batch of 21 payloads (lengths 1,11,15,16,17,255,1000 x fills 0x00, 0xFF, ASCII marker); 'damage' flips one bit (tag or data/nonce byte) of the newest stored encrypted payload, after which a read must fail or deliver exactly what was sent; after every step all messages are read back, every file under the data directory is searched for every marker written under encryption (payloads and journalled stream names), and restarts into key 1 / key 2 / encryption off are classified by what the files were written under",
             alphabet().iter().map(|o| o.short()).collect::<Vec<_>>()
         ),
         bounds: json!({"depth": depth, "alphabet": alphabet().iter().map(|o| o.short()).collect::<Vec<_>>(), "initial_modes": ["key1", "off"], "cache": [false, true]}),
@@ -101,6 +108,9 @@ pub fn plan(tier: &str) -> (PropMeta, Vec<Job>) {
     };
     (meta, jobs)
 }
+
+/// mode value of a message whose stored bytes were damaged
+const DAMAGED: u8 = 9;
 
 struct St {
     /// (mode the message was written under, payload)
@@ -163,21 +173,29 @@ fn check_state(w: &mut World, st: &St, res: &mut JobResult, canonical: bool) -> 
             return Err(format!("poll failed although every message was written under the current key/mode: {e}"));
         }
         (Ok(p), false) => {
-            if st.cur != 0 {
-                // a key is in use and some records were written under another key or in clear
+            // the message cache may still hold an intact copy of a record that was damaged on disk:
+            // delivering exactly what was sent is never wrong
+            let got: Vec<&Vec<u8>> = p.msgs.iter().map(|g| &g.payload).collect();
+            let want: Vec<&Vec<u8>> = st.msgs.iter().map(|(_, b)| b).collect();
+            if st.cur != 0 && got == want && st.msgs.iter().all(|(m, _)| *m == st.cur || *m == DAMAGED) {
+                res.bump("damaged_record_served_intact_from_memory");
+            } else if st.cur != 0 {
+                // a key is in use and some records were written under another key, in clear, or are damaged
                 return Err(format!(
-                    "poll returned {} messages as valid content although some of them were written under another key/mode (current mode {})",
+                    "poll returned {} messages as valid content although some of them were written under another key/mode or cannot be authenticated (current mode {})",
                     p.msgs.len(),
                     st.cur
                 ));
             }
-            // encryption off: ciphertext comes back as is; it must not be the plaintext
-            for (g, (m, plain)) in p.msgs.iter().zip(st.msgs.iter()) {
-                if *m != 0 && g.payload == *plain {
-                    return Err("plaintext of an encrypted message was returned with encryption off".into());
+            if st.cur == 0 {
+                // encryption off: ciphertext comes back as is; it must not be the plaintext
+                for (g, (m, plain)) in p.msgs.iter().zip(st.msgs.iter()) {
+                    if *m != 0 && g.payload == *plain {
+                        return Err("plaintext of an encrypted message was returned with encryption off".into());
+                    }
                 }
+                res.bump("reads_with_encryption_off_over_ciphertext");
             }
-            res.bump("reads_with_encryption_off_over_ciphertext");
         }
         (Err(e), false) => {
             if e.starts_with("PANIC") {
@@ -290,6 +308,36 @@ fn run_one(scratch: &Scratch, tpl: &crate::plog::Template, hist: &[EOp], res: &m
                         }
                         note = format!("send refused: {e}");
                     }
+                }
+            }
+            EOp::Damage => {
+                // only a message that is on disk and was written under a key can be damaged
+                let on_disk = st.flushed_upto == st.msgs.len() && st.msgs.last().map(|(m, _)| *m == 1 || *m == 2).unwrap_or(false);
+                if on_disk {
+                    w.node.quiesce(3);
+                    let part = w.dir.join("streams/1/topics/1/partitions/1");
+                    let mut logs: Vec<std::path::PathBuf> = std::fs::read_dir(&part)
+                        .map(|rd| rd.flatten().map(|e| e.path()).filter(|p| p.extension().map(|x| x == "log").unwrap_or(false) && std::fs::metadata(p).map(|m| m.len() > 0).unwrap_or(false)).collect())
+                        .unwrap_or_default();
+                    logs.sort();
+                    if let Some(f) = logs.last() {
+                        let bytes = std::fs::read(f).unwrap();
+                        // the stored payload of the last message is nonce (12) + data + tag (16) bytes and ends
+                        // the file: byte -1 lies in the tag, byte -20 in the data or the nonce
+                        let k = if i % 2 == 0 { 1 } else { 20 };
+                        let pos = bytes.len() - k;
+                        {
+                            use std::io::{Seek, SeekFrom, Write};
+                            let mut fh = std::fs::OpenOptions::new().write(true).open(f).unwrap();
+                            fh.seek(SeekFrom::Start(pos as u64)).unwrap();
+                            fh.write_all(&[bytes[pos] ^ 0x01]).unwrap();
+                        }
+                        st.msgs.last_mut().unwrap().0 = DAMAGED;
+                        note = format!("flipped bit 0 of byte -{k} of {}", f.file_name().unwrap().to_string_lossy());
+                        res.bump("records_damaged");
+                    }
+                } else {
+                    note = "skipped (no encrypted message on disk)".into();
                 }
             }
             EOp::Flush => {
